@@ -230,9 +230,6 @@ def run_case(case: dict) -> dict:
                 probe(res, "refused_under_injected_fault")
                 continue
             if comp["ok"] != ref["ok"]:
-                if "signal-table-pollution" in excl and case.get("special") == "pollute":
-                    probe(res, "known_finding_outcome_not_judged")
-                    continue
                 res["status"] = "violation"
                 res["violation"] = {"class": "outcome-differs-from-fresh-process", "detail": {
                     "fresh_process": {"ok": ref["ok"], "stage": ref["stage"], "error": ref["error"]},
